@@ -131,6 +131,14 @@ def distinctImages (r : R (List PyVal)) : Bool :=
   | .ok ys => jsonNodup ys
   | .error _ => true
 
+/-- a size bound on a Map counts the members of the serialized object: Python keys that are different
+    can have one JSON name (`1` and `"1"`), then the object is smaller than the map (finding
+    `admits:map-size-key-collision`); without a bound nothing is asked -/
+def sameCount (sz : SizeOpts) (n : Nat) (r : R PyVal) : Bool :=
+  (sz.min.isNone && sz.max.isNone) || (match r with
+    | .ok (.dict r') => r'.length == n
+    | _ => true)
+
 def attrPresent (attrs : List (String × PyVal)) (r : String) : Bool :=
   match lookup r attrs with
   | some v => !v.isNone
@@ -166,8 +174,12 @@ def regF (O : Oracles) : FieldDecl → PyVal → Bool
   | .tuplePos fs u, v => (match v with
     | .tuple xs => regZip O fs xs && (!u || distinctImages (serZip O fs xs))
     | _ => false)
-  | .mapAny _, _ => true
-  | .mapOf _ vf _, v => (match v with | .dict kvs => kvs.all (fun kv => regF O vf kv.2) | _ => false)
+  | .mapAny sz, v => (match v with
+    | .dict kvs => sameCount sz kvs.length (ser O (.mapAny sz) (.dict kvs))
+    | _ => false)
+  | .mapOf kf vf sz, v => (match v with
+    | .dict kvs => kvs.all (fun kv => regF O vf kv.2) && sameCount sz kvs.length (ser O (.mapOf kf vf sz) (.dict kvs))
+    | _ => false)
   | .struct c fields defaults, v => (match v with
     | .inst cn attrs =>
       cn == c.name && nodupS (attrs.map (·.1))
